@@ -342,9 +342,10 @@ func genProbe(t *rapid.T, class string) c24Probe {
 		p.Scn, p.H1 = genBase(t, baseOpt{})
 		own := p.H1.Own
 		set, _ := crossing(own, perm(t, len(own), "own-order"), ownCrosses(own))
-		sigs := sigsFor(len(own), set, "ok")
+		sigs := sigsFor(len(own), set, "absent")
 		victim := set[len(set)-1]
 		if !pivotal {
+			sigs = sigsFor(len(own), set, "ok")
 			in := map[int]bool{}
 			for _, i := range set {
 				in[i] = true
@@ -533,7 +534,7 @@ func genProbe(t *rapid.T, class string) c24Probe {
 			h2.Post = []mutSpec{{M: headerFieldMuts[pick(len(headerFieldMuts), "hf")], A: arg()}}
 		case "mb-h2-sig":
 			set, _ := crossing(h2.Own, perm(t, len(h2.Own), "own-order"), ownCrosses(h2.Own))
-			sigs := sigsFor(len(h2.Own), set, "ok")
+			sigs := sigsFor(len(h2.Own), set, "absent")
 			sigs[set[len(set)-1]] = sigSpec{M: badSigModes[1+pick(len(badSigModes)-1, "mode")], A: arg()}
 			h2.Sigs = sigs
 		case "mb-future":
